@@ -21,7 +21,7 @@ for f in sys.argv[1:]:
             caught = 'exit ' + rc
         res[seed] = (prop, caught)
 def key(s):
-    m = re.match(r'C(\d+)(?:-r(\d))?', s)
+    m = re.match(r'C(\d+)(?:-r(\d+))?', s)
     return (int(m.group(2) or 1), int(m.group(1)))
 for s in sorted(res, key=key):
     print('| %s | %s | %s %s |' % (s, idx.get(s, ''), res[s][0], res[s][1]))
